@@ -736,8 +736,10 @@ prims.KIND_METHOD['dbmap'] = dbmap_method
 
 class GetConnection(MvccSpec):
     """Connection.get_connection: the connection to another database of a multi-database is opened with THIS
-    connection's transaction manager and THIS connection's historical bound (None for a live one), so that a
-    historical connection's partners read the same past state and are read-only as well."""
+    connection's transaction manager and at THIS connection's historical moment (None for a live one): with this
+    connection's bound, or - when the partner database has no transaction that late - with the bound just after the
+    partner's newest transaction, which shows the same state and which the partner's DB.open does not refuse as
+    "in the future".  A historical connection's partners thus read the same past state and are read-only as well."""
     func = 'ZODB.Connection:Connection.get_connection'
     props = ('C15',)
     cases = ('historical', 'live')
@@ -753,12 +755,28 @@ class GetConnection(MvccSpec):
         me = inst(c, 'ZODB.Connection:Connection', _db=db, connections=conns, transaction_manager=tm,
                   before=before)
         c.ghost['gc'] = {'other_db': other_db, 'tm': tm, 'before': before, 'conns': conns,
-                         'existing': existing, 'name': c.fresh_opaque('database_name')}
+                         'existing': existing, 'name': c.fresh_opaque('database_name'),
+                         'other_last': c.fresh_bytes(8, 'partner_last_tid')}
         return {'self': me, 'database_name': c.ghost['gc']['name']}
+
+    def requires(self, c, E):
+        # tids are time stamps: the all-ones tid (whose successor does not fit eight bytes) is not one
+        return [('partner-last-tid-has-a-successor', bytes_num(c, c.ghost['gc']['other_last']) < 2 ** 64 - 1)]
 
     def hooks(self, c):
         def ometh(cc, v, name, args, kwargs, node):
+            if v.tag == 'other_db' and name == 'lastTransaction':
+                return cc.ghost['gc']['other_last']
             if v.tag == 'other_db' and name == 'open':
+                # precondition of DB.open (its own contract, DBOpen): a bound later than the newest transaction OF
+                # THAT DATABASE is refused with ValueError - the partner may not have been written for a long time
+                b = kwargs.get('before')
+                if isinstance(b, VBytes):
+                    last2 = bytes_num(cc, cc.ghost['gc']['other_last'])
+                    bb = bytes_num(cc, b)
+                    cc.assume(z3.And(timestamp.LATER(last2) > last2))
+                    cc.oblige('partner-open.bound-not-in-the-future-of-the-partner-database',
+                              z3.Not(z3.And(bb > last2, bb > timestamp.LATER(last2))), node, assume_after=False)
                 n = cc.fresh_opaque('new_connection')
                 cc.event('opened', tuple(args), dict(kwargs), n)
                 return n
@@ -790,13 +808,18 @@ class GetConnection(MvccSpec):
             ok1 = len(opened) == 1 and not opened[0][1]
             kw = opened[0][2] if opened else {}
             b = kw.get('before')
-            same_bound = (isinstance(b, VNone) and isinstance(g['before'], VNone)) or \
-                (isinstance(b, VBytes) and isinstance(g['before'], VBytes) and
-                 bytes_num(c, b) == bytes_num(c, g['before']))
+            # the same MOMENT: the partner has nothing later than its newest transaction, so the bound just after
+            # that transaction shows the same state as this connection's (later) bound
+            if isinstance(b, VBytes) and isinstance(g['before'], VBytes):
+                mine, last2 = bytes_num(c, g['before']), bytes_num(c, g['other_last'])
+                same_bound = z3.Or(bytes_num(c, b) == mine,
+                                   z3.And(last2 < bytes_num(c, b), bytes_num(c, b) <= mine))
+            else:
+                same_bound = isinstance(b, VNone) and isinstance(g['before'], VNone)
             return [('partner-opened-once-in-the-named-database', ok1 and any(
                         e[0] == 'database-looked-up' and e[1] is g['name'] for e in c.events)),
                     ('partner-uses-the-same-transaction-manager', kw.get('transaction_manager') is g['tm']),
-                    ('partner-reads-at-the-same-historical-bound', same_bound if b is not None else False),
+                    ('partner-reads-the-same-historical-moment', same_bound if b is not None else False),
                     ('no-at-argument', 'at' not in kw),
                     ('partner-shares-the-connection-table', any(
                         e[0] == 'shares-connections' and e[1] is opened[0][3] and
